@@ -3,7 +3,8 @@ import St4sd.Model.Restart
 /-! Model driver for property C12.
 
 Request: `{"op":"exec","old":bool,"fin":bool,"cfg":{maxRestarts:int|null,hookFileNamed,hookOn:[names],simulator,
-repeating,hookModule:"fallback"|"scripted"|"broken"},"inps":[{reason,hook,control,runFails,stable}]}`
+repeating,hookModule:"fallback"|"scripted"|"broken"},"inps":[{reason,hook,control,runFails,stable,
+launch:"task"|"submitError"|"otherError"|"none"}]}`
 Answer: `{"events":[{code,restarts,resub,runs,shutdown}]}` (one per input, chronological). -/
 open Lean Proto St4sd.Restart
 
@@ -33,6 +34,14 @@ def parseModule (s : String) : Except String HookModule :=
   | "broken" => pure .broken
   | _ => throw s!"unknown hook module kind {s}"
 
+def parseLaunch (s : String) : Except String Launch :=
+  match s with
+  | "task" => pure .task
+  | "submitError" => pure .submitError
+  | "otherError" => pure .otherError
+  | "none" => pure .none
+  | _ => throw s!"unknown launch kind {s}"
+
 def parseCfg (j : Json) : Except String Cfg := do
   let mr ← match j.getObjVal? "maxRestarts" with
     | .ok Json.null => pure none
@@ -44,8 +53,15 @@ def parseCfg (j : Json) : Except String Cfg := do
            hookModule := ← parseModule (← getStr j "hookModule") }
 
 def parseInp (j : Json) : Except String Inp := do
-  return { reason := ← parseReason (← getStr j "reason"), hook := ← parseHook (← getStr j "hook"),
-           control := ← getBool j "control", runFails := ← getBool j "runFails", stable := ← getBool j "stable" }
+  let reason ← parseReason (← getStr j "reason")
+  let hook ← parseHook (← getStr j "hook")
+  let control ← getBool j "control"
+  let runFails ← getBool j "runFails"
+  let stable ← getBool j "stable"
+  let launch ← parseLaunch (← getStr j "launch")
+  let i : Inp := ⟨reason, hook, control, runFails, stable, launch⟩
+  if !i.wf then throw "launch kind and exit reason are inconsistent"
+  return i
 
 def evJson (e : Ev) : Json :=
   jobj [("code", jstr e.code.name), ("restarts", jnat e.st.restarts), ("resub", jnat e.st.resub),
